@@ -42,7 +42,8 @@ def text(alpha=ALPHA, min_size=1, max_size=10):
 
 
 def key():
-    return text().map(lambda k: "k_" + k if k in RECORD_ATTRIBUTES else k)
+    # (a few fixed keys recur across cases of one process: state carried between records shows up)
+    return st.one_of(text(), text(), st.sampled_from(["state", "rank", "host", "a b", "k=1"])).map(lambda k: "k_" + k if k in RECORD_ATTRIBUTES else k)
 
 
 def name():
@@ -52,7 +53,8 @@ def name():
 number = st.one_of(st.integers(-2**53, 2**53), st.integers(-100, 100), st.floats(allow_nan=False, allow_infinity=False),
                    st.floats(-1e6, 1e6), st.booleans())
 field_value = st.one_of(text(min_size=0), number)
-tag_value = st.one_of(text(), text(), st.integers(-1000, 1000), st.floats(-1e6, 1e6), st.booleans())
+tag_value = st.one_of(text(), text(), st.integers(-1000, 1000), st.floats(-1e6, 1e6), st.booleans(),
+                      st.sampled_from([0, 1, True, False, 0.0, 1.0, -0.0, -1, "0", "1", "True"]), st.sampled_from([0, 1, True, False, 0.0, 1.0]))
 
 
 @st.composite
@@ -240,6 +242,13 @@ def run_json(spec) -> Result:
 
 
 def tests(tier):
+    from vlib import lineproto
+    from vlib.core import HarnessError
+
+    try:
+        lineproto.selfcheck()  # the oracle itself is validated against the documented examples
+    except AssertionError as e:
+        raise HarnessError(str(e))
     return [
         TestDef("line", run_line, strategy=line_case(), quick=20000, thorough=600000),
         TestDef("json", run_json, strategy=json_case(), quick=6000, thorough=200000),
